@@ -36,6 +36,18 @@ UNIT = dict(
         h("c09_compare_bb", ["C09"], "Byte x Byte: exact, consistent with =="),
         h("c09_compare_chars", ["C09"], "chars compare by code point, == is identity"),
         h("c09_compare_null_unordered", ["C09"], "null is unordered"),
+        h("c08_total_order_pair_ii", ["C08", "C11"], "Object::total_order (sort's comparison) on Integer Integer : cmp(a, b) == cmp(b, a).reverse(), cmp(a, a) == Equal, every payload (NaN included)"),
+        h("c08_total_order_pair_ff", ["C08", "C11"], "Object::total_order (sort's comparison) on Float Float : cmp(a, b) == cmp(b, a).reverse(), cmp(a, a) == Equal, every payload (NaN included)"),
+        h("c08_total_order_pair_if", ["C08", "C11"], "Object::total_order (sort's comparison) on Integer Float : cmp(a, b) == cmp(b, a).reverse(), cmp(a, a) == Equal, every payload (NaN included)"),
+        h("c08_total_order_triple_iii", ["C08", "C11"], "Object::total_order is transitive on every triple Integer Integer Integer  (so slice::sort never meets an inconsistent comparison)"),
+        h("c08_total_order_triple_fff", ["C08", "C11"], "Object::total_order is transitive on every triple Float Float Float  (so slice::sort never meets an inconsistent comparison)"),
+        h("c08_total_order_triple_iif", ["C08", "C11"], "Object::total_order is transitive on every triple Integer Integer Float  (so slice::sort never meets an inconsistent comparison)"),
+        h("c08_total_order_triple_ifi", ["C08", "C11"], "Object::total_order is transitive on every triple Integer Float Integer  (so slice::sort never meets an inconsistent comparison)"),
+        h("c08_total_order_triple_fii", ["C08", "C11"], "Object::total_order is transitive on every triple Float Integer Integer  (so slice::sort never meets an inconsistent comparison)"),
+        h("c08_total_order_triple_iff", ["C08", "C11"], "Object::total_order is transitive on every triple Integer Float Float  (so slice::sort never meets an inconsistent comparison)"),
+        h("c08_total_order_triple_fif", ["C08", "C11"], "Object::total_order is transitive on every triple Float Integer Float  (so slice::sort never meets an inconsistent comparison)"),
+        h("c08_total_order_triple_ffi", ["C08", "C11"], "Object::total_order is transitive on every triple Float Float Integer  (so slice::sort never meets an inconsistent comparison)"),
+        h("c11_total_order_agrees_with_less_than", ["C11"], "on two integers, two non-NaN floats, two bytes, two chars total_order is Less exactly when a < b; integer next to float: never contradicts the comparison as doubles"),
         h("c06_is_falsey_scalars", ["C06"], "is_falsey on every Bool/Integer/Float/Char/Byte value and Null equals the documented table"),
     ] + [h("c10_hash_%s" % n, ["C10"], "k1 == k2 implies identical hasher input, all %s key pairs" % n.replace("_", " x "))
          for n in ["int_int", "float_float", "int_float", "float_int", "byte_byte", "char_char", "bool_bool", "null_null"]],
